@@ -314,7 +314,32 @@ where
     } else {
         // NO RECOVERY SHARDS
 
-        let original_received_count = original.count();
+        // Apply the same checks `ReedSolomonDecoder` would,
+        // with shard size inferred from the first original shard.
+        let mut shard_bytes = None;
+        let mut received = fixedbitset::FixedBitSet::with_capacity(original_count);
+
+        for (index, original) in original {
+            let got = original.as_ref().len();
+            let shard_bytes = *shard_bytes.get_or_insert(got);
+
+            if shard_bytes == 0 || shard_bytes & 1 != 0 {
+                return Err(Error::InvalidShardSize { shard_bytes });
+            } else if index >= original_count {
+                return Err(Error::InvalidOriginalShardIndex {
+                    original_count,
+                    index,
+                });
+            } else if received[index] {
+                return Err(Error::DuplicateOriginalShardIndex { index });
+            } else if got != shard_bytes {
+                return Err(Error::DifferentShardSize { shard_bytes, got });
+            }
+
+            received.insert(index);
+        }
+
+        let original_received_count = received.count_ones(..);
         if original_received_count == original_count {
             // Nothing to do, original data is complete.
             return Ok(HashMap::new());
